@@ -2,6 +2,7 @@ package encoder
 
 import (
 	"bytes"
+	"context"
 	"encoding"
 	"encoding/base64"
 	"encoding/json"
@@ -424,6 +425,10 @@ func AppendMarshalJSON(ctx *RuntimeContext, code *Opcode, b []byte, v interface{
 			return AppendNull(ctx, b), nil
 		}
 		stdctx := ctx.Option.Context
+		if stdctx == nil {
+			// a call without context (Marshal, MarshalIndent, Encode)
+			stdctx = context.Background()
+		}
 		if ctx.Option.Flag&FieldQueryOption != 0 {
 			stdctx = SetFieldQueryToContext(stdctx, code.FieldQuery)
 		}
@@ -477,6 +482,10 @@ func AppendMarshalJSONIndent(ctx *RuntimeContext, code *Opcode, b []byte, v inte
 			return AppendNull(ctx, b), nil
 		}
 		stdctx := ctx.Option.Context
+		if stdctx == nil {
+			// a call without context (Marshal, MarshalIndent, Encode)
+			stdctx = context.Background()
+		}
 		if ctx.Option.Flag&FieldQueryOption != 0 {
 			stdctx = SetFieldQueryToContext(stdctx, code.FieldQuery)
 		}
